@@ -27,6 +27,9 @@ type Scenario struct {
 	Params   map[string]interface{} `json:"params,omitempty"`
 	Faults   []string               `json:"faults,omitempty"` // enabled fault kinds (informational)
 	DrainMs  int64                  `json:"drain_ms,omitempty"`
+	// Prefix: scenarios run before this one in the same process (replay of a violation that depends on
+	// process-global state left behind by earlier runs of the same worker); their verdicts are not judged.
+	Prefix []*Scenario `json:"prefix,omitempty"`
 }
 
 // Actor is a scripted peer.
